@@ -28,9 +28,9 @@ def run(ctx):
     s = S(ctx)
     rts = roots(ctx, ENTRY)
     sc = scope_of(ctx, rts, within=lambda p: p.startswith("pocket_types::"))
-    ctx.floor("C19.scope-functions", len(sc), 40)
+    ctx.floor("C19.scope-functions", len(sc), 20)
     obs = g_obligations(ctx, sc, ("cast", "index", "slice", "panic", "arith"))
-    ctx.floor("C19.sites", len(obs), 150)
+    ctx.floor("C19.sites", len(obs), 50)
     n_narrow = sum(1 for o in obs if o.rule == "G-NARROW")
     ctx.instances["C19.narrowing-casts"] = n_narrow
     for o in obs:
